@@ -233,7 +233,8 @@ Proof.
   pose proof (source_start_statement_is_model (Stream_encoder SN g) (st_enc m) HRt) as H0.
   destruct (TermEncoder_start_statement SN (Stream_encoder SN g)) as [[u|e0] ge0]; [|contradiction].
   unfold E.encode_graph_start. rewrite Hi.
-  pose proof (H_graph gid (PMsg "RdfGraphStart" []) ge0 (E.start_statement (st_enc m)) H0) as Hg.
+  pose proof (H_graph gid (PMsg "RdfGraphStart" []) ge0 (E.start_statement (st_enc m)) H0
+                ltac:(exists "RdfGraphStart"%string, (@None wterm), (@None wterm), (@None wterm); split; [right; right; left; reflexivity | reflexivity])) as Hg.
   cbn [Stream_encoder set_Stream_encoder]. norm.
   destruct (enc_graph gid (PMsg "RdfGraphStart" []) ge0) as [[[grows|eg] ge1] gstart];
     destruct (E.encode_graph_term ig gid (E.start_statement (st_enc m))) as [[[t1 mrows] w]|e'] eqn:Egt; try contradiction; cbn [bind]; cbv beta iota zeta.
